@@ -28,6 +28,7 @@ type c11env struct {
 	d               *delivery
 	invoked         sync.Map // hostile tag -> *atomic.Int32
 	hostileHandlers atomic.Int64
+	hostileExits    atomic.Int64
 }
 
 func (e *c11env) count(tag uint32) int32 {
@@ -48,6 +49,7 @@ func (e *c11env) handler() mpx.HandleFunc {
 			v, _ := e.invoked.LoadOrStore(id, new(atomic.Int32))
 			v.(*atomic.Int32).Add(1)
 			e.hostileHandlers.Add(1)
+			defer e.hostileExits.Add(1)
 			// behave like an ordinary echo handler for the hostile peer
 			for {
 				m, st := ch.Receive(ctx)
@@ -249,7 +251,7 @@ func hostileValue(r *rng.R) []byte {
 // C11: the server serves only negotiated connections and survives hostile peers.
 func C11(c *runner.Cfg) *report.Result {
 	res := report.New("C11", "")
-	res.Rule = "scripted raw TCP peers against a real mpx server while a well-behaved client runs witness channels under the C03 delivery oracle on another connection: (1) 20 handshake variations that must be refused (wrong/missing/overlong/prefixed protocol line, no common version, first frame not a connect request) each followed by a tagged open frame and data: the handler must never run for that tag and the server must close the socket (EOF within the watchdog); (2) after a valid handshake: structure-aware mutants of every frame kind, parser-hostile values as frames, truncated frames, length prefixes 0/1/2/2^24, nested batches, duplicate channel ids, frames for unknown channels, window deltas 0/-1/min/max, opens with window 0/-1/min, unknown codes, repeated handshake, random bytes, 40 abandoned channels: the process survives, the well-behaved connection stays open with exact delivery; handler invocations are attributed to peers by the first payload; non-trivial = script that the server accepted at least one frame of; distinct = distinct scripts"
+	res.Rule = "scripted raw TCP peers against a real mpx server while a well-behaved client runs witness channels under the C03 delivery oracle on another connection: (1) 20 handshake variations that must be refused (wrong/missing/overlong/prefixed protocol line, no common version, first frame not a connect request) each followed by a tagged open frame and data: the handler must never run for that tag and the server must close the socket (EOF within the watchdog); (2) after a valid handshake: structure-aware mutants of every frame kind, parser-hostile values as frames, truncated frames, length prefixes 0/1/2/2^24, nested batches, duplicate channel ids, frames for unknown channels, window deltas 0/-1/min/max, opens with window 0/-1/min, unknown codes, repeated handshake, random bytes, 40 abandoned channels: the process survives, the well-behaved connection stays open with exact delivery, every handler that ran for a hostile peer returns once that peer's connection is gone; handler invocations are attributed to peers by the first payload; non-trivial = script that the server accepted at least one frame of; distinct = distinct scripts"
 	logger := netx.NewRecLogger()
 	hooks := netx.Install(c.Seed)
 	e := &c11env{res: res, d: newDelivery(res, "c11:healthy-client:")}
@@ -419,6 +421,11 @@ func C11(c *runner.Cfg) *report.Result {
 	}
 	res.Count("healthy_client_channels_completed", goodRounds.Load())
 	res.Count("healthy_client_messages", e.d.recv[0].Load()+e.d.recv[1].Load())
+	// every hostile peer's socket is closed by now: the handlers that ran for them must have been
+	// released (their channel contexts cancelled), nothing of a dead connection stays behind
+	if !c.Abort.Load() && !Settle(Watchdog, func() bool { return e.hostileExits.Load() == e.hostileHandlers.Load() }) {
+		res.Violate("c11:hostile-peer-handler-left-behind", fmt.Sprintf("%d handlers ran for hostile peers, %d returned: %v after the last hostile connection was closed the others are still blocked (their contexts were never cancelled)", e.hostileHandlers.Load(), e.hostileExits.Load(), Watchdog), map[string]any{"goroutines": Goroutines(6)})
+	}
 	res.Count("handler_runs_for_hostile_peers_after_valid_handshake", e.hostileHandlers.Load())
 	res.Count("connection_errors_logged", int64(len(logger.ConnErrors())))
 	res.Count("library_panics_recovered_and_logged", int64(len(logger.LibraryPanics())))
